@@ -67,7 +67,7 @@ C["C16"]["harnesses"] += [
 ]
 C["C16"]["assumptions"] += ["encoding/binary.Read/Write modelled per type (fixed-size big-endian layout) in the engine", "UDP transport: socket, resolver, retry ticker (fires once per transaction) and random transaction ids (distinct) replaced; retransmission timing, connection-id expiry and transaction-id collisions outside the claim", "HTTP tracker replies (bencode/reflection) not encoded"]
 C["C15"] = dict(assumptions=["encoding/binary.Write modelled per type (fixed-size big-endian layout) in the engine; natively the real encoding/binary runs"], harnesses=[
-    H("ZZUDPAnnouncePacket", "internal/tracker/udptracker", "UDP announce datagram == BEP 15 layout for arbitrary info-hash, peer id (all 20 bytes), counters, event, num-want, port, connection/transaction id, url-data <= 4 bytes", T(45, 600, 4, 4), T(45, 900, 4, 4)),
+    H("ZZUDPAnnouncePacket", "internal/tracker/udptracker", "UDP announce datagram == BEP 15 layout for arbitrary info-hash, peer id (all 20 bytes), counters, event, num-want, port, connection/transaction id, url-data <= 4 bytes", T(45, 600, 4, 4), T(45, 3000, 4, 4)),
 ])
 C["C08"] = dict(assumptions=["peer replaced by a recorder"], harnesses=[
     H("ZZNewBytes", "internal/bitfield", "peer bitfield: any bytes (<= 5) and any 32-bit bit count: rejected or consistent (size rule, spare bits cleared, Test == raw bit, Set/Clear local); no panic", T(45, 600), T(45, 600)),
